@@ -94,7 +94,7 @@ pub fn check(c: &Case, obs: &mut Obs) -> Result<(), String> {
             // the same revision is the one the comparison uses
             let x = &version[..at];
             if !base.contains(['<', '>', '{', '}']) && !version.contains(['<', '>', '{', '}']) && !x.starts_with('=') && has_dash
-                && crate::models::dewey::longest_digit_run(x) <= 18
+                && crate::models::dewey::numbers_in_domain(x)
             {
                 let probes: Vec<(String, bool)> = vec![
                     (format!("{}>={}nb{}", base, x, r), true),
